@@ -782,27 +782,32 @@ class CBO(Search):
 
         df, df_failures = filter_failed_objectives(df)
 
-        self._fitted = True
-
-        if self._opt is None:
-            self._setup_optimizer()
-
         hp_names = [f"p:{name}" for name in self._problem.hyperparameter_names]
         try:
             x = df[hp_names].values.tolist()
-            x += df_failures[hp_names].values.tolist()
 
             # check single or multiple objectives
             if "objective" in df.columns:
                 y = df.objective.tolist()
             else:
                 y = df.filter(regex=r"^objective_\d+$").values.tolist()
+
+            y = [np.negative(yi).tolist() for yi in y]
+
+            # failed configurations are handled as in ``_tell``
+            if self._opt_kwargs["acq_optimizer_kwargs"]["filter_failures"] != "ignore":
+                x += df_failures[hp_names].values.tolist()
+                y += ["F"] * len(df_failures)
         except KeyError:
             raise ValueError("Incompatible dataframe 'df' to fit surrogate model of CBO.")
 
-        y = [np.negative(yi).tolist() for yi in y] + ["F"] * len(df_failures)
+        if len(y) > 0:
+            self._fitted = True
 
-        self._opt.tell(x, y)
+            if self._opt is None:
+                self._setup_optimizer()
+
+            self._opt.tell(x, y)
 
     def fit_generative_model(
         self,
